@@ -11,15 +11,15 @@ NOTE = ("Trusted base: the harness driver and reference model in /verif (Go), th
 
 CHECKS = {
  # id: (category, technique, text, design_ref)
- 'C01': ('exploration', 'runtime monitoring: reference-model monitor + replicated-view fold over wire-level event logs of generated sequential histories, concurrent blocks (free, jittered, stepped) and step-through runs (join / leave / switch / delete parked at every scheduling point they pass)',
+ 'C01': ('exploration', 'runtime monitoring: reference-model monitor + replicated-view fold over wire-level event logs of generated sequential histories, concurrent blocks (free, jittered, stepped), step-through runs (join / leave / switch / delete / plain requests parked at every scheduling point they pass) and lag-then-catch-up trials with several senders',
          'Every member\'s folded view is compared with the server state (model, checked against what each joiner is handed) at checkpoints of seeded sequential histories over all module subsets; inapplicable broadcasts are flagged when received.', '4 C01'),
  'C02': ('exploration', 'runtime monitoring: exactly-once / no-echo / order oracle over attributed relays (unique origin tags) in recorded event logs of sequential histories, concurrent blocks, lagging-member trials and step-through runs',
          'Each relay is attributed to the request that caused it through a unique origin tag; per step the exact recipient multiset is demanded behind a session barrier.', '4 C02'),
- 'C03': ('exploration', 'runtime monitoring: per-session reference model + differential re-run (noninterference) of recorded histories on a fresh process; dagaz samples / plane counts / whole-grid listings per session in the model',
+ 'C03': ('exploration', 'runtime monitoring: per-session reference model + differential re-run (noninterference) of recorded histories on a fresh process; dagaz samples / plane counts / whole-grid listings per session in the model; timing-side isolation trials (a stalled member, pending updates at a departure after a switch) with witnesses outside the session',
          'Histories over several sessions with coinciding ids are judged by a model with no cross-session terms, and re-run with the other sessions\' traffic removed; streams must be equal after normalisation.', '4 C03'),
- 'C04': ('exploration', 'runtime monitoring: request/answer matching behind connection barriers against the reference model\'s acceptable-answer sets',
+ 'C04': ('exploration', 'runtime monitoring: request/answer matching behind connection barriers against the reference model\'s acceptable-answer sets; receipt bursts and a gated full queue; wedge detection in stepped joins',
          'Every request kind with refusal-heavy argument pools; exactly one answer, right type or an acceptable error code, and no effect of refused requests (relays, later handed state).', '4 C04'),
- 'C05': ('exploration', 'runtime monitoring: reference-model monitor over attack-profile histories (foreign delete / pose / asset attempts) with probe comparison',
+ 'C05': ('exploration', 'runtime monitoring: reference-model monitor over attack-profile histories (foreign delete / pose / asset attempts) with probe comparison; id-uniqueness oracle over entity-add storms',
          'Foreign attempts on every (requester, entity) kind including after the owner left; answers, silence behind barriers and the state handed to later joiners are checked.', '4 C05'),
  'C07': ('exploration', 'runtime monitoring: registry reference model over sequential histories + gated interleavings and step-through runs (last departure, creation, switch, join parked at every scheduling point they pass) with probe / gauge / goroutine-census oracles',
          'Create-join-switch-leave histories with id reuse judged by the model, probes, the session gauge and a frame-worker census; the dangerous overlaps (join x last departure, two last departures, late unregistration x creation) are forced with gates at scheduling points injected by the build overlay.', '4 C07'),
@@ -33,23 +33,23 @@ CHECKS = {
          'Ids are opaque to the model, which demands freshness per session uuid over long histories with releases; the id source is enumerated exhaustively for all short sequences and checked for linearizability under concurrency; 16-connection allocation storms collect every issued id.', '4 C10'),
  'C11': ('exploration', 'runtime monitoring: order-based oracles over per-observer pose relay sequences (sequence number in px), frame barriers, gated frame ticks; pose-liveness oracle after step-through runs (join / leave / switch parked at every point, one and two preemptions)',
          'Owners stream sequence-numbered updates at several frame durations with deletions and invalid updates interleaved; per observer and entity the relayed numbers must strictly increase, stop at the delete relay and end with the last one sent (also at a newcomer); a held frame tick makes coalescing exact.', '4 C11'),
- 'C15': ('exploration', 'runtime monitoring: admission oracle with an independent HMAC/claims verifier over a token mutation catalogue x carriers, against the real middleware and the real binary behind a fake discovery service (unregistered, registered, rotated)',
+ 'C15': ('exploration', 'runtime monitoring: admission oracle with an independent HMAC/claims verifier over a token mutation catalogue x carriers, against the real middleware and the real binary behind a fake discovery service (unregistered, registered, rotated); invalid-token cases x request methods x ambient headers',
          'A valid token and each single mutation of it in every carrier and combination, with the server unregistered, registered and after secret rotation; admitted only if a carried token verifies independently, a single valid token is admitted, protected handlers entered iff admitted.', '4 C15'),
- 'C18': ('exploration', 'runtime monitoring: scripted honest and misbehaving clients against the signed-latency exchange; independent signature recovery (pure-Go secp256k1 + Keccak-256) and data-consistency oracles',
+ 'C18': ('exploration', 'runtime monitoring: scripted honest and misbehaving clients (incl. a session switch with a ping pending, chained requests) against the signed-latency exchange; independent signature recovery (pure-Go secp256k1 + Keccak-256) and data-consistency oracles',
          'Iteration counts 0..60 and extremes, wallet strings, duplicate / unknown / replayed answers, restarts and delayed rounds; every completed response is checked for signature, binding, ping-id set, count and statistics (last >= the injected delay of the final round).', '4 C18'),
- 'C19': ('fault_enumeration', 'runtime monitoring: forwarded-iff-valid oracle at a fake credit service with an independent validity check, per-submission answer oracle, service failure modes, pipelined bursts from 8-16 connections and a gated queue-full scenario',
+ 'C19': ('fault_enumeration', 'runtime monitoring: forwarded-iff-valid oracle at a fake credit service with an independent validity check, per-submission answer oracle, service failure modes, pipelined bursts from 8-16 connections, a gated queue-full scenario and stepped one-free-slot rounds with simultaneous submitters',
          'Harness-signed valid triples and every single-field corruption from 1-16 connections with the credit service ok / slow / 500 / down; forwards are compared byte for byte after all forwarding goroutines ended; queue-full is made deterministic by holding the verifier at an injected gate.', '4 C19'),
  'C20': ('exploration', 'runtime monitoring: invariant walkers over the real grid after every insertion (child process), primitives against math/big references, wire-level sharing/retention scenarios and reference-model histories with dagaz traffic',
          'Seeded insertion sequences with merges, cascades and growth in all directions; index completeness, whole-grid region query, vertical rays, bounds, plane count and row shape are evaluated after every insertion; samples must be visible to later joiners and survive departures.', '4 C20'),
  'C12': ('exploration', 'runtime monitoring: map reference model over component histories at the wire; porcupine linearizability of the real store per key; step-through runs (component add against entity deletion / owner departure) with a referential-integrity oracle',
          'Component requests with ids that exist / never existed / no longer exist; answers, LIST contents, handed state and cascades are compared with a map model.', '4 C12'),
- 'C13': ('exploration', 'runtime monitoring: subscription-entitlement oracle over recorded per-connection notification streams; step-through of a notification in flight against an answered unsubscribe',
+ 'C13': ('exploration', 'runtime monitoring: subscription-entitlement oracle over recorded per-connection notification streams; step-through of a notification in flight against an answered unsubscribe; exactly-once oracle in sessions of 140-700 subscribers',
          'Per component change the exact set of notified connections is derived from the model\'s subscription table and demanded behind a session barrier.', '4 C13'),
- 'C14': ('exploration', 'runtime monitoring: recipient-set and byte-equality oracle over custom-message deliveries',
+ 'C14': ('exploration', 'runtime monitoring: recipient-set and byte-equality oracle over custom-message deliveries (bodies up to 31 MiB, sessions up to 700 members, addressed messages stepped against each other)',
          'Bodies around the 10240 limit and arbitrary recipient lists; deliveries are matched byte for byte per addressed member behind a session barrier.', '4 C14'),
  'C16': ('exploration', 'runtime monitoring: reference-model monitor of entity actions / asset instances incl. state handed to joiners; step-through runs (concurrent setters on one key, action against entity deletion / departure, joins parked at their own sends) with latest-timestamp, referential-integrity and view oracles',
          'Timestamps equal / older / newer / zero / absent and asset replacement, interleaved with deletions and departures; VIKJA/ODAL state handed to every joiner is compared with the model.', '4 C16'),
- 'C17': ('exploration', 'runtime monitoring: differential stream comparison of one recorded history under flag sets (flag-aware reference model in both runs)',
+ 'C17': ('exploration', 'runtime monitoring: differential stream comparison of recorded histories and of a directed departure script under flag sets and flag lists (empty / unknown / repeated names at any position; flag-aware reference model in both runs)',
          'Quick: the empty set, all singletons, the full set, 40 seeded subsets and unknown names; thorough: all 1024 subsets x 3 histories. Per-step windows must equal the flag-free ones minus the disabled classes.', '4 C17'),
 }
 
